@@ -998,6 +998,10 @@ func (c *Ctx) invoke(s *State, fr *Frame, x *ssa.Call, com *ssa.CallCommon, args
 	mname := com.Method.Name()
 	key := "(" + typeName(it) + ")." + mname
 	s.calllog = append(s.calllog, key)
+	if s.callArgs == nil {
+		s.callArgs = map[string][][]Val{}
+	}
+	s.callArgs[key] = append(s.callArgs[key], args) // args[0] is the receiver
 	sig := com.Method.Type().(*types.Signature)
 	iv, _ := args[0].(IfaceV)
 	if c.checkNil && !c.eng.effectFreeIface(typeName(it)) || c.checkNil && c.fc.Opts["nilcheck-loggers"] != "" {
